@@ -88,11 +88,38 @@ class Site:
         self.body, self.node, self.kind, self.what, self.cls = body, node, kind, what, cls
 
 
+def bodies(f):
+    """{def path: body record} of everything the census looks at: the bodies as the rules see them (helpers introduced by a later
+    change expanded into their callers, facts.py), plus every new function that nobody in the workspace calls - a new public method
+    is reachable by the library's user although no caller exists to expand it into."""
+    if getattr(f, '_readbuf_bodies', None) is not None:
+        return f._readbuf_bodies
+    out = dict(f.hir)
+    hir_all = getattr(f, 'hir_all', f.hir)
+    dropped = [p for p in hir_all if p not in out]
+    if dropped:
+        called = set()
+        for rec in hir_all.values():
+            for n, _c in walk(rec['body']):
+                if n['k'] in ('Call', 'MethodCall'):
+                    called.add(callee_of(n))
+                elif n['k'] == 'Path' and n.get('res') == 'def':
+                    called.add(n.get('inst') or n.get('def'))
+        for p in dropped:
+            if p not in called:
+                out[p] = hir_all[p]
+    try:
+        f._readbuf_bodies = out
+    except AttributeError:
+        pass
+    return out
+
+
 def census(f):
     """Every site of the workspace that touches the framed transport, classified: [Site].  cls is one of 'fresh', 'no-access',
     'handle', 'taken-apart', 'transport-io', 'crate-fn', 'replaced', 'parts-field', or 'unclassified'."""
     sites = []
-    for path, h in f.hir.items():
+    for path, h in bodies(f).items():
         for n, _ctx in walk(h['body']):
             k = n['k']
             if k in ('Call', 'MethodCall'):
@@ -168,9 +195,18 @@ class Region:
                         del C.arms[key]
                     self.runs.append(('arm %s' % role, outs, I, C.loop))
             else:
-                B = hirq.Body(f, f.hir[path])
-                outs, I = sem.paths(f, B)
-                self.runs.append(('body', outs, I, B))
+                self.whole_body()
+        except absx.TooManyPaths as e:
+            self.error = 'too many paths (%s)' % e
+
+    def whole_body(self):
+        """The body's own paths from its entry (also for the driver loop's function, for a site that lies outside the select! arms)."""
+        if any(l == 'body' for l, _o, _i, _b in self.runs) or self.error:
+            return
+        try:
+            B = hirq.Body(self.f, bodies(self.f)[self.path])
+            outs, I = sem.paths(self.f, B)
+            self.runs.append(('body', outs, I, B))
         except absx.TooManyPaths as e:
             self.error = 'too many paths (%s)' % e
 
@@ -275,6 +311,9 @@ def judge_handle(ctx, rule, site, region, B):
             return
     occ = region.occurrences(node)
     if not occ:
+        region.whole_body()
+        occ = region.occurrences(node)
+    if not occ:
         if region.error is None and region.dead(node):
             ctx.ok(rule + '.only-the-frame-decoder-consumes', '%s|dead' % where, loc(node), 'the accessor sits in a branch that is taken on no path')
             return
@@ -282,7 +321,8 @@ def judge_handle(ctx, rule, site, region, B):
                  'Framed::read_buffer_mut is called at a place the enumerated paths of %s do not reach (%s): what is done with the read buffer there is not decided' % (where, region.error or 'not inside a select! arm / behind a construct without a model'))
         return
     verdicts = {}       # (use, ok) -> detail
-    for label, o, i in occ:
+    for label0, o, i in occ:
+        label = 'on the paths of the function body' if label0 == 'body' else 'select! %s of the driver loop' % label0
         e = o.st.ev[i]
         R = e[2][0]
         T = ('call', e[1], tuple(e[2]), node.get('id'))
@@ -319,7 +359,7 @@ def judge_handle(ctx, rule, site, region, B):
                 if u[0] == 'assign-local' and not through and isinstance(u[2], tuple) and u[2] == T:
                     continue            # `b = framed.read_buffer_mut()`: a name for the reference; its uses carry the term
                 verdicts[('store', False)] = 'the `&mut BytesMut` of the transport\'s read buffer is stored / assigned through (%s) where this rule cannot follow it' % label
-        if mentions(o.val, T) and o.kind in ('val', 'ret') and region.runs and label == 'body':
+        if mentions(o.val, T) and o.kind in ('val', 'ret') and label0 == 'body':
             verdicts[('returned', False)] = 'the `&mut BytesMut` of the transport\'s read buffer is returned from %s: who changes it from there is not decided' % where
         if not uses:
             verdicts.setdefault(('unused', True), 'obtained and not used')
@@ -352,7 +392,7 @@ def check(ctx, f, rule='G8', upgrade_site=None, decoder=None):
             if s.body not in regions:
                 regions[s.body] = Region(f, s.body)
             reg = regions[s.body]
-            B = reg.runs[0][3] if reg.runs else hirq.Body(f, f.hir[s.body])
+            B = reg.runs[0][3] if reg.runs else hirq.Body(f, bodies(f)[s.body])
             judge_handle(ctx, rule, s, reg, B)
     # the read loop itself must have been found, else the census looked at the wrong thing
     reads = [s for s in sites if s.cls == 'transport-io' and (callee_of(s.node) or '').rsplit('::', 1)[-1] in STREAM_READS]
@@ -377,7 +417,7 @@ def check(ctx, f, rule='G8', upgrade_site=None, decoder=None):
     io_types = {io_ty} | {hirq.strip_refs(v) for v in variants}
     own_impl = [i2['path'] for i2 in f.items_all if i2.get('kind') == 'AssocFn' and (i2.get('impl_trait_def') or '').endswith('::AsyncRead') and i2.get('impl_self') == io_ty]
     n_reads = 0
-    for path, h in f.hir.items():
+    for path, h in bodies(f).items():
         for n, _c in walk(h['body']):
             if n['k'] in ('Call', 'MethodCall'):
                 cal = callee_of(n) or ''
